@@ -227,7 +227,8 @@ pub enum Step {
     },
     /// `refslot2`: triggers only - a second target entity (the observer then runs once per target)
     EmitS { kind: SK, mode: u8, target: usize, refslot: usize, #[serde(default)] refslot2: Option<usize> },
-    EmitC { client: usize, kind: CK, refslot: usize },
+    /// `refslot2`: triggers only - a second target entity
+    EmitC { client: usize, kind: CK, refslot: usize, #[serde(default)] refslot2: Option<usize> },
     ServerFrame { tick: bool },
     /// `n` server frames without a tick (time passes: acknowledgement timeouts can fire while acks are still in flight)
     IdleFrames { n: u8 },
